@@ -39,6 +39,45 @@ def proj_client(which):
         return (a, b)
     return p
 
+
+def session_groups(ans):
+    """(tag, clock-read log, outcome text) of every element of a session answer"""
+    out = []
+    for g in ans.split(' ; '):
+        g = g.strip()
+        tag = g.split(' ', 1)[0]
+        if tag in ('q', 'cq') and ' : ' in g:
+            head, res = g.split(' : ', 1)
+            out.append((tag, head.split(' ', 1)[1] if ' ' in head else '', res))
+        else:
+            out.append((tag, '', g))
+    return out
+
+def proj_session(which):
+    """the observable of a session line that property `which` speaks about"""
+    def p(c):
+        ia, ma = session_groups(c.impl), session_groups(c.model)
+        if len(ia) != len(ma): return (c.impl, c.model)
+        a = []; b = []
+        for (ti, li, ri), (tm, lm, rm) in zip(ia, ma):
+            if ti not in ('q', 'cq') or tm not in ('q', 'cq'):
+                continue                                   # publications, pokes and opens: C16/C17's business
+            if which == 'order': a.append(li); b.append(lm)
+            elif which == 'all': a.append((li, ri)); b.append((lm, rm))
+            elif which == 'class':
+                a.append(ri.split()[0:2] if not is_ok(ri) else ['ok']); b.append(rm.split()[0:2] if not is_ok(rm) else ['ok'])
+            elif is_ok(ri) and is_ok(rm):
+                fx, fy = client_fields(ri), client_fields(rm)
+                i = 0 if which == 'interval' else 1
+                a.append(fx[i]); b.append(fy[i])
+        return (a, b)
+    return p
+
+def with_session(proj, which):
+    return lambda c: proj_session(which)(c) if kind(c) == 'session' else proj(c)
+
+SESSION_RULE = " || `session` lines: one real segment (fresh file, real ShmWriter), one long-lived ClockBoundClient and one long-lived C context (clockbound_open in the C client process) driven through 3-20 operations: publications, the generation/version word overwritten (writer dead mid-update, segment being re-initialised), re-opens, and paired now()/clockbound_now() calls at instants aimed at the cached record's thresholds (blur, 5 s, void-after, far beyond, 2^32-ns aliases); ten scripted sessions (one record ageing through every threshold on one client, grace-then-void with nothing in between, a record that becomes malformed asked repeatedly, repeated causality breach, odd/zero generation before the first call, frozen odd generation while the cached record ages, publications between calls, open before the first publication) always run; every answer must be what a fresh evaluation of the cached-record semantics gives, with the clock reads in the order REALTIME, MONOTONIC_COARSE on every call"
+
 CLIENT_TB = ["modelled, not verified: nix 0.26.4 TimeSpec arithmetic (mirrored operation by operation), Rust `as` casts, IEEE-754 binary64 as exact-rational round-to-nearest-even (exponent range not modelled; bit-compared with hardware on every case)"]
 
 PROPS = {
@@ -47,10 +86,11 @@ PROPS = {
     technique='Lean 4 proof (rational model of IEEE doubles; rne53 relative-error and monotonicity lemmas) + differential correspondence of the compiled model against ClockErrorBound::now() under an interposed clock',
     level_text='Theorems C05.symmetric / growth_bounds / growth_mono / mono_holds / model_holds prove, for every record and clock reading in the physically meaningful range, symmetry, ordering, half-width = bound + growth with P(1-2^-51)-1 < growth <= P(1+2^-51), and monotonicity in age, about a line-by-line model of compute_bound_at including a bit-exact rational model of the f64 operations. The model is tied to the current source by running the real now() on ~35k generated cases per run and comparing intervals exactly.',
     level_note='Trusted: Lean kernel + 3 standard axioms; nix TimeSpec and IEEE rounding are modelled (mirrored), not verified; correspondence is differential testing.',
-    gens=lambda seed, th: [['client', seed, 400000 if th else 25000], ['client2', seed, 200000 if th else 10000], ['corder', seed, 5000 if th else 600]],
-    relevant=lambda c: kind(c) in ('client', 'client2', 'corder'),
+    gens=lambda seed, th: [['client', seed, 400000 if th else 25000], ['client2', seed, 200000 if th else 10000], ['corder', seed, 5000 if th else 600], ['session', seed, 40000 if th else 1500]],
+    relevant=lambda c: kind(c) in ('client', 'client2', 'corder', 'session'),
     also=['C12'],
-    project=lambda c: (c.impl.split(' ; ')[0], c.model.split(' ; ')[0]) if kind(c) == 'corder' else proj_client('interval')(c),
+    pre='build_cclient',
+    project=lambda c: (c.impl.split(' ; ')[0], c.model.split(' ; ')[0]) if kind(c) == 'corder' else with_session(proj_client('interval'), 'interval')(c),
     nontrivial=lambda c: 'growth' in c.tags,
     rule="cases from one PRNG (VERIF_SEED): records x (realtime, monotonic) readings biased to nsec in {0,1,999999999}, ages in {0, sub-us, 1 s +- 1 ns, hours, days}, drift in {0,1,999,50000,999999999}, products drift*age/1e9 straddling integers; `client2` = two readings of one record (monotonicity). distinct = sha1 of request line; non-trivial = age > 0 and drift > 0 and exact growth >= 1 ns (tag `growth`) and the C05 hypotheses apply",
     trusted_base=CLIENT_TB,
@@ -61,9 +101,10 @@ PROPS = {
     technique='Lean 4 proof (omega over the nix TimeSpec mirror) + exhaustive threshold grid and random differential correspondence against the real now()',
     level_text='Theorem C06.status_char gives the total characterisation of the reported status for all three stored statuses and every reading in range; the property clauses (synchronized_only_if, freeRunning_only_if, unknown_always, fresh_passthrough) are corollaries, and daemon_record_applicable shows every daemon-written record meets the hypothesis. The real code is compared with the model on an exhaustive +-1 ns grid around every threshold and on random cases each run.',
     level_note='Trusted: Lean kernel + standard axioms; nix TimeSpec ordering/arithmetic mirrored; correspondence is differential testing.',
-    gens=lambda seed, th: [['client', seed, 400000 if th else 25000]],
-    relevant=lambda c: kind(c) == 'client',
-    project=proj_client('status'),
+    gens=lambda seed, th: [['client', seed, 400000 if th else 25000], ['session', seed, 40000 if th else 1500]],
+    relevant=lambda c: kind(c) in ('client', 'session'),
+    pre='build_cclient',
+    project=with_session(proj_client('status'), 'status'),
     nontrivial=lambda c: bool(c.tags & {'near5s', 'nearVoid', 'aged'}),
     rule="exhaustive grid {3 statuses} x {as_of-1000ns, as_of, as_of+5s, void_after} x {-1,0,+1 ns} x 8 as_of shapes x 4 void_after shapes x 4 drifts, plus seeded random cases; distinct = sha1 of request; non-trivial = monotonic reading within 1 us of the 5 s or void-after threshold, or beyond 5 s with a trusted stored status",
     trusted_base=CLIENT_TB,
@@ -73,9 +114,10 @@ PROPS = {
     technique='Lean 4 proof that no checked-arithmetic or nix range panic is reachable in range, with outcome characterisation + differential correspondence incl. a malformed-input stream under catch_unwind',
     level_text='Theorems C14.no_panic, malformed_iff, causality_iff, ok_otherwise, blur_age_zero: in the model every i64 operation and nix assertion is explicit, and for all inputs within +-2^31 s and bound < 2^60 none of them fires; error outcomes are characterised exactly. The real now() is run under catch_unwind on boundary grids (as_of-1000ns +-1, drift 1e9 +-1, range corners) and on out-of-range inputs where the model must predict the panic.',
     level_note='Trusted: Lean kernel + standard axioms; dev-profile overflow semantics and nix 0.26.4 assertions are modelled; release builds wrap instead of panicking and are out of scope.',
-    gens=lambda seed, th: [['client', seed, 400000 if th else 25000]],
-    relevant=lambda c: kind(c) == 'client',
-    project=proj_client('class'),
+    gens=lambda seed, th: [['client', seed, 400000 if th else 25000], ['session', seed, 40000 if th else 1500]],
+    relevant=lambda c: kind(c) in ('client', 'session'),
+    pre='build_cclient',
+    project=with_session(proj_client('class'), 'class'),
     nontrivial=lambda c: bool(c.tags & {'nearBlur', 'badDrift'}),
     rule="same generator as C06 (threshold grid + seeded random + a 4% stream of non-normalised / extreme values outside the property's range, used for model agreement only); non-trivial = monotonic reading within 1 us of as_of - 1000 ns, or drift >= 10^9",
     trusted_base=CLIENT_TB,
@@ -250,10 +292,11 @@ PROPS.update(PROPS_POLLER)
 C12_CLIENT = dict(
     oracle='C12',
     lean_modules=['ClockBound.Properties.C12'],
-    gens=lambda seed, th: [['corder', seed, 20000 if th else 2000]],
-    relevant=lambda c: kind(c) == 'corder',
-    project=lambda c: (c.impl.split(' ; ')[0], c.model.split(' ; ')[0]),
-    nontrivial=lambda c: 'meaningful' in c.tags,
+    gens=lambda seed, th: [['corder', seed, 20000 if th else 2000], ['session', seed, 40000 if th else 1500]],
+    relevant=lambda c: kind(c) in ('corder', 'session'),
+    pre='build_cclient',
+    project=lambda c: proj_session('order')(c) if kind(c) == 'session' else (c.impl.split(' ; ')[0], c.model.split(' ; ')[0]),
+    nontrivial=lambda c: 'meaningful' in c.tags or 'multiCall' in c.tags,
     rule="client half: the real ClockErrorBound::now() is run under the clock_gettime interposer, which logs the clock id of every read: the log must be [CLOCK_REALTIME, CLOCK_MONOTONIC_COARSE]; non-trivial = inputs in the meaningful range",
     trusted_base=["the clock_gettime interposer sees every clock read of the process"],
     technique='Lean 4 proof that containment (C01) needs only ta <= tq and tr <= tm, that either delay only widens the interval, and that either swapped order breaks containment in an explicit world + observation of the real read order under the interposer',
@@ -378,3 +421,6 @@ CONSTS = {'C05': 'Client', 'C06': 'Client', 'C14': 'Client', 'C18': 'Reader', 'C
 for _p, _g in CONSTS.items():
     if _p in PROPS:
         PROPS[_p]['consts_module'] = f'ClockBound.Properties.Consts{_g}'
+
+for _p in ('C05', 'C06', 'C14', 'C12', 'C17'):
+    PROPS[_p]['rule'] += SESSION_RULE
